@@ -27,7 +27,7 @@ RULE = ("G-MAP base family: every pipeline of 1..2 functions over root sets {x[i
         "outer product / ':' / internal axis / tuple output / full reduction. The 1-function pipelines are enumerated with one, two and three outputs")
 ASSUMPTIONS = ["reference denotation vmc/gen_map.py:ref_map (~50 lines)", "uninterpreted term bodies: value equality is derivation equality",
                "sequential execution (schedules are C03's business)", "zarr storages cannot be imported in this sandbox"]
-BUDGET = {"quick": 80.0, "thorough": 900.0}
+BUDGET = {"quick": 120.0, "thorough": 900.0}
 
 
 def predicates(spec) -> dict:
